@@ -28,6 +28,8 @@ def run(ctx):
     r43_45(ctx, api)
     r44(ctx, wr)
     r46(ctx, api)
+    from . import callsigs as _cs
+    _cs.general_rules(ctx, 'R4', ['writer.write', 'writer.write_simple', 'writer.write_multi', 'writer.make_row_group', 'writer.make_part_file', 'writer.partition_on_columns', 'api.statistics', 'api.sorted_partitioned_columns'])
 
 
 def r41(ctx, wr):
@@ -138,6 +140,12 @@ def r42(ctx, wr):
                 ok = strip.count('[4:]') == 2 and '[4:]' not in other and other.count("encode['PLAIN']") == 2 and strip.count("encode['PLAIN']") == 2
             ctx.ob('R4.2', 'writer.write_column:%s-arm-length-prefix-stripped-only-for-converted-byte-arrays' % name, ok,
                    'max/min of BYTE_ARRAY+converted type lose the 4-byte PLAIN length prefix; other types keep PLAIN bytes', wr.loc(t))
+        if name == 'categorical':
+            dn = [s for s in t.body if isinstance(s, ast.Assign) and norm(s.targets[0]) == 'dnnu']
+            okd = len(dn) == 1 and norm(dn[0].value).startswith('data0.unique()')
+            ctx.ob('R4.2', 'writer.write_column:categorical-bounds-from-the-values-present-in-the-chunk', okd,
+                   '`%s`: the bounds describe the values stored in this chunk (data0.unique()), not the dtype\'s category set' % (
+                       norm(dn[0]) if dn else '?'), wr.loc(t))
         mm = [s for s in t.body if isinstance(s, ast.Assign) and norm(s.targets[0]) == '(max, min)']
         want = '(dnnu.max(), dnnu.min())' if name == 'categorical' else '(data0.max(), data0.min())'
         ctx.ob('R4.2', 'writer.write_column:%s-arm-max-min-assigned-in-that-order' % name,
@@ -191,6 +199,12 @@ def r43_45(ctx, api):
     ok = len(pf_arm) == 1 and "for name in ['min', 'max']" in src(pf_arm[0]) and \
         "for n in ['min', 'max', 'null_count', 'distinct_count']" in src(pf_arm[0])
     ctx.ob('R4.3', 'api.statistics:min-and-max-converted-by-the-same-loop', ok, '', api.loc(f))
+    if pf_arm:
+        se = [s for s in iter_child_stmts(pf_arm[0].body) if isinstance(s, ast.Assign) and norm(s.targets[0]) == 'se']
+        ctx.ob('R4.3', 'api.statistics:schema-element-looked-up-by-path-list',
+               len(se) == 1 and norm(se[0].value) == 'schema.schema_element(col.meta_data.path_in_schema)',
+               '`%s`: a dotted string is split on "." by schema_element, which breaks flat columns whose name contains a dot' % (
+                   norm(se[0]) if se else '?'), api.loc(pf_arm[0]))
 
 
 def r44(ctx, wr):
